@@ -95,13 +95,17 @@ Section Stream.
     SList (flat_map (fun c => flat_map (run_call tbl (window_mask tbl c)) (cx_calls c)) cfg).
 
   (* ---------------------------------------------------------------- PandasStream
-     the subset is taken by comparing the time column; the boolean subset_indexes is then rebuilt
-     from the subset's row LABELS:  subset_indexes.loc[subset.index] = True *)
+     the subset is taken by comparing the time column, keeping track of the POSITIONS of the rows kept *)
 
   Definition labels_selected (tbl : table) (m : list bool) : list Z := restrict m (t_index tbl).
 
-  Definition pandas_mask (tbl : table) (m : list bool) : list bool :=
+  (* before the repair of F23 the mask was rebuilt from the subset's row LABELS
+     (subset_indexes.loc[subset.index] = True): every row sharing a label with a selected row was marked *)
+  Definition pandas_mask_by_label (tbl : table) (m : list bool) : list bool :=
     map (fun lab => existsb (Z.eqb lab) (labels_selected tbl m)) (t_index tbl).
+
+  (* now: the positions of the rows kept by the window comparisons (subset_indexes.iloc[subset_rows] = True) *)
+  Definition pandas_mask (tbl : table) (m : list bool) : list bool := m.
 
   Definition run_call_pandas (tbl : table) (m : list bool) (c : call) : list sres :=
     match lookup (cl_stream c) (t_cols tbl) with
